@@ -448,6 +448,37 @@ def _parse_seq(texts):
     return rules
 
 
+def check_create_rules(texts, mult):
+    """the same texts as real files through cluster_prediction.create_rules (the pipeline's entry point for several rule files)"""
+    import shutil  # pylint: disable=import-outside-toplevel
+    import tempfile  # pylint: disable=import-outside-toplevel
+    from antismash.common.hmm_rule_parser import cluster_prediction  # pylint: disable=import-outside-toplevel
+    ref_rules, aliases = [], {}
+    for text in texts:
+        new, aliases = G.parse_file(list(text), PROFILES, CATEGORIES, ref_rules, aliases)
+        ref_rules = ref_rules + new
+    tmp = tempfile.mkdtemp(prefix="c02files")
+    try:
+        paths = []
+        for i, text in enumerate(texts):
+            paths.append(os.path.join(tmp, f"rules{i}.txt"))
+            with open(paths[-1], "w", encoding="utf-8") as handle:
+                handle.write(join(text))
+        try:
+            rules = cluster_prediction.create_rules(paths, set(PROFILES), set(CATEGORIES),
+                                                    Multipliers(cutoff=mult[0], neighbourhood=mult[1]))
+        except Exception as err:  # pylint: disable=broad-except
+            return [("create-rules-raised", f"{type(err).__name__}: {str(err)[:120]}")]
+    finally:
+        shutil.rmtree(tmp, ignore_errors=True)
+    if len(rules) != len(ref_rules):
+        return [("create-rules-rule-count", f"{len(rules)} vs {len(ref_rules)}")]
+    fails = []
+    for real, ref in zip(rules, ref_rules):
+        fails.extend((f"create-rules:{clause}", detail) for clause, detail in compare_rule(real, ref, mult))
+    return fails
+
+
 FILE_MULTIPLIERS = [(1.0, 1.0), (0.5, 1.5), (1.5, 0.5), (2.0, 2.0)]
 
 
@@ -460,6 +491,7 @@ def check_files(pattern, split, res=None, mult=(1.0, 1.0)):
     fails, outcome = judge_texts(texts, mult)
     if outcome != "both-accept":
         return fails or [("reference-rejects-generated-file", outcome)]
+    fails = fails + check_create_rules(texts, mult)
     if not fails and res is not None:
         res.buckets["files:parsed"] += 1
         if len(split) > 1 and mult != (1.0, 1.0):
